@@ -320,6 +320,8 @@ def bracket_vec(cs, efs_key, efs):
 EF_WIDE = [-1.63 + 0.29 * i for i in range(16)]     # -1.63 .. 2.72, never on a ladder value
 EF_NARROW = [0.87 + 0.11 * i for i in range(5)]     # 0.87 .. 1.31: bands fully below and fully above exist
 EF_NARROW2 = [0.93 + 0.13 * i for i in range(5)]    # same length as EF_NARROW, other values (cache keyed by identity)
+EF_NARROW3 = [x + 5e-9 for x in EF_NARROW]              # same length, values within any allclose() tolerance of EF_NARROW
+EF_NARROW4 = [x * (1 + 3e-6) for x in EF_NARROW]        # same length, relative offset below numpy's default rtol
 EF_ONE = [1.27]
 
 
@@ -329,7 +331,7 @@ def run_groups(case):
     nb = 3
     nontriv = []
     nev = 0
-    efsets = {"wide": EF_WIDE, "narrow": EF_NARROW, "narrow2": EF_NARROW2, "one": EF_ONE}
+    efsets = {"wide": EF_WIDE, "narrow": EF_NARROW, "narrow2": EF_NARROW2, "narrow3": EF_NARROW3, "narrow4": EF_NARROW4, "one": EF_ONE}
     for c1, c2, c3 in itertools.product(range(case["nlad"]), repeat=3):
         lad = [LADDERS[case["c0"]], LADDERS[c1], LADDERS[c2], LADDERS[c3]]
         eCenter = np.array([cen], dtype=float)                     # (1, nb)
@@ -337,7 +339,7 @@ def run_groups(case):
         tw = TetraWeights(eCenter=eCenter.copy(), eCorners=eCorners.copy())
         arrays = {k: np.array(v) for k, v in efsets.items()}
         # the order of calls exercises the lazy cache keyed by (Fermi array identity, der, ik, ib)
-        for efname, der, thr in [(n, d, t) for t in (-1, 0.6) for n in ("wide", "narrow", "narrow2", "one")
+        for efname, der, thr in [(n, d, t) for t in (-1, 0.6) for n in ("wide", "narrow", "narrow2", "narrow3", "narrow4", "one")
                                  for d in (0, 1, -1, 2, 3, 0)]:
             efs = efsets[efname]
             got = tw.weights_all_band_groups(arrays[efname], der=der, degen_thresh=thr)
